@@ -457,6 +457,11 @@ def run(prop, tier, seed, backends=BACKENDS, only_universe=None):
             # events of the relay's own key are not submitted from outside: the relay is asked to build them itself
             scripts = [tuple(("service", op[1]) if op[0] == "submit" and cf["uni"].abs[op[1]]["pk"] == "S" else op for op in sc) for sc in scripts]
             cf["stimuli"] = scripts
+        if prop == "C17":
+            # every other script: the passes run while another client's stored query is being streamed
+            scripts = [tuple((("gc", op[1], "busy") if op[0] == "gc" else op) for op in sc) if n % 2 else sc for n, sc in enumerate(scripts)]
+            cf["stimuli"] = scripts
+            cf["storage_options"] = {"_sql_file": True, "_keydump": True}
         cf["scripts"] = [with_lookups(sc, cf["uni"]) + probes for sc in scripts]
     # phase 2: run on the real storage classes
     all_traces = pool.run_many(configs, config={"service_privatekey": C.SECRETS["S"]})
@@ -497,6 +502,8 @@ def run(prop, tier, seed, backends=BACKENDS, only_universe=None):
                 out.violation(what, attrs, lambda p, uni=uni, tr=tr, bad=bad, backend=backend, uname=uname, sc=cf["scripts"][k]:
                               trace.dump_replay(p, {"property": prop, "backend": backend, "universe": uname,
                                                     "script": list(sc)}, uni, tr, bad))
+    if prop == "C17":
+        _index_entries(out, configs)
     design.join(out)
     out.cov["distinct_nontrivial"] = len(distinct)
     out.cov["rule"] = ("behaviours of Store.tla (Submit / Writer / Gc) enumerated by TLC to depth %d over %d hand-made universes "
@@ -509,6 +516,28 @@ def run(prop, tier, seed, backends=BACKENDS, only_universe=None):
                                                     cf["generated"] for cf in configs}
     out.notes["violations_of_other_properties_seen"] = other
     return out
+
+
+def _index_entries(out, configs):
+    """C17 '... together with all their index entries': the complete row / key dump taken after every step (SQL: events and tags
+    rows; LMDB: every key) is judged by TLC against KvIndex.tla - an entry without its record after a pass is a violation"""
+    from .. import tracedata
+    from . import kvfam
+
+    for cf in configs:
+        kvtraces = [kvfam.to_kv_trace(tr) for tr in cf["traces"]]
+        verdicts, vstats = tracedata.validate("KvIndex_Trace", kvfam.defs_for(cf["uni"], cf["backend"]), kvtraces, batch=150)
+        out.add_model(vstats)
+        for k, tr in enumerate(kvtraces):
+            for b in verdicts[k]:
+                if b[0] != "C17_EntryWithoutRecord":
+                    continue
+                ln = tr[b[1] - 1]["_line"]
+                what = "C17 on %s/%s: index entries without their record (%s) after step %s of script %s: %s" % (
+                    cf["backend"], cf["uname"], b[0], _pub(ln), list(cf["stimuli"][k]), b[2][:6])
+                out.violation(what, {"backend": cf["backend"], "universe": cf["uname"], "formula": "C17_EntryWithoutRecord", "line": _pub(ln),
+                                     "offenders": [], "uni": cf["uni"]}, None)
+                break
 
 
 _RULE = {
